@@ -52,6 +52,7 @@ THEOREMS = [
     ("c18_min_max_ties", "forall x y : spec_float, (SFcompare x y = Some Eq -> min80 x y = y /\\ max80 x y = x) /\\ (x = S754_nan \\/ y = S754_nan -> min80 x y = y /\\ max80 x y = x)"),
     ("c18_rne_ok_sound", "forall prec emax : Z, 1 < prec -> prec < emax -> forall (num den E : Z) (r : spec_float), 0 < num -> 0 < den -> rne_ok prec emax num den E r = true -> let rv := round radix2 (FLT_exp (3 - emax - prec) prec) ZnearestE (IZR num / IZR den * bpow radix2 E) in match r with | S754_finite _ m e => rv = F2R (Float radix2 (Zpos m) e) /\\ bounded prec emax m e = true | S754_zero _ => rv = 0%R | S754_infinity _ => (bpow radix2 emax <= rv)%R | S754_nan => False end"),
     ("c18_spec_check_sound", "forall (op : opk) (a b : Z) (o : obs), spec_check (Case op a b o) = true -> let x := decode80 (o_wa o) in let y := decode80 (o_wb o) in (sel op OAdd = true -> valid80 x /\\ valid80 y /\\ decode80 (o_add o) = add80 x y /\\ decode64 (o_nadd o) = narrow (decode80 (o_add o))) /\\ (sel op OSub = true -> valid80 x /\\ valid80 y /\\ decode80 (o_sub o) = sub80 x y /\\ decode64 (o_nsub o) = narrow (decode80 (o_sub o))) /\\ (sel op OMul = true -> valid80 x /\\ valid80 y /\\ decode80 (o_mul o) = mul80 x y /\\ decode64 (o_nmul o) = narrow (decode80 (o_mul o))) /\\ (sel op ODiv = true -> valid80 x /\\ valid80 y /\\ decode80 (o_div o) = div80 x y /\\ decode64 (o_ndiv o) = narrow (decode80 (o_div o))) /\\ (sel op OChain = true -> valid80 x /\\ valid80 y /\\ valid80 (decode80 (o_mul o)) /\\ decode80 (o_mad o) = add80 (decode80 (o_mul o)) x /\\ decode80 (o_chain o) = div80 (decode80 (o_mad o)) y /\\ decode64 (o_nchain o) = narrow (decode80 (o_chain o))) /\\ (sel op OExt = true -> (forall (u v : raw) (r : relobs), In (u, v, r) (ext_pairs o) -> let X := decode80 u in let Y := decode80 v in valid80 X /\\ valid80 Y /\\ r_lt r = lt80 X Y /\\ r_le r = le80 X Y /\\ r_gt r = gt80 X Y /\\ r_ge r = ge80 X Y /\\ r_eq r = eq80 X Y /\\ r_pcmp r = pcmp_code (partial_cmp80 X Y) /\\ (X <> S754_nan -> Y <> S754_nan -> ((decode80 (r_min r) = X \\/ decode80 (r_min r) = Y) /\\ SFleb (decode80 (r_min r)) X = true /\\ SFleb (decode80 (r_min r)) Y = true) /\\ ((decode80 (r_max r) = X \\/ decode80 (r_max r) = Y) /\\ SFleb X (decode80 (r_max r)) = true /\\ SFleb Y (decode80 (r_max r)) = true))) /\\ (forall u t : raw, In (u, t) (ext_abs o) -> match decode80 u with | S754_nan => True | S754_zero _ => exists s : bool, decode80 t = S754_zero s | E => decode80 t = SFabs E end) /\\ decode64 (x_nmad (o_ext o)) = narrow (decode80 (o_mad o)) /\\ (forall (n : Z) (w : raw), In (n, w) (ext_widened o) -> decode80 w = widen (decode64 n)))"),
+    ("c18_spec_trace_sound", "forall (a b : Z) (wa wb : raw) (steps : list tstep), spec_check (Trace a b wa wb steps) = true -> decode80 wa = widen (decode64 a) /\\ decode80 wb = widen (decode64 b) /\\ forall (k : nat) (op : top) (i j : nat) (r : raw) (n code : Z), nth_error steps k = Some (TS op i j r n code) -> let regs := wa :: wb :: map step_raw (firstn k steps) in let U := decode80 (nth i regs (0, 0)) in let V := decode80 (nth j regs (0, 0)) in let R := decode80 r in (i < k + 2)%nat /\\ (j < k + 2)%nat /\\ valid80 U /\\ valid80 V /\\ match op with | TAdd => R = add80 U V | TSub => R = sub80 U V | TMul => R = mul80 U V | TDiv => R = div80 U V | TNeg => R = neg80 U | TRnd => R = widen (narrow U) | TAbs => match U with | S754_nan => True | S754_zero _ => exists s : bool, R = S754_zero s | E => R = SFabs E end | TMin => U <> S754_nan -> V <> S754_nan -> (R = U \\/ R = V) /\\ SFleb R U = true /\\ SFleb R V = true | TMax => U <> S754_nan -> V <> S754_nan -> (R = U \\/ R = V) /\\ SFleb U R = true /\\ SFleb V R = true end /\\ decode64 n = narrow R /\\ code = rel_code U V"),
 ]
 # Driver limitation (checks/_driver.py parse_assumptions): the block of text after an "Axioms:" header runs up to
 # the next header and therefore contains the output of the NEXT `Check (name : statement).`, whose first line
@@ -59,7 +60,7 @@ THEOREMS = [
 # unindented line that is not followed by an indented type, the names of the pinned theorems are tolerated here.
 # (No constant of that name can be an axiom: the forbidden-token scan rejects every Axiom/Parameter declaration.)
 AXIOM_ALLOW += [n for n, _ in THEOREMS]
-SHARD = 1250
+SHARD = 1350
 SEARCH_MAX = 20000
 RULE = ("boundary set x boundary set of binary64 bit patterns, exhaustively (signed zeros, min/mid/max subnormals, "
         "MIN_POSITIVE, powers of two and their +-1ulp neighbours, 1-2^-53, 1+2^-52, 0.1, 1/3, huge/tiny exponents, "
@@ -102,7 +103,10 @@ def bits(x):
 
 
 def harness_line(c):
-    return "%s %s %s" % (c["op"], c["a"], c["b"])
+    if c["op"] == "trace":
+        st = c["steps"]
+        return "trace %s %s %d %s" % (c["a"], c["b"], len(st), " ".join("%s %d %d" % (o, i, j) for (o, i, j) in st))
+    return "%s %s %s %s" % (c["op"], c["a"], c["b"], c.get("route") or "-")
 
 
 def w(v):
@@ -148,14 +152,40 @@ def ext_term(t):
     return " ".join(out)
 
 
-def coq_term(c, obs, profile):
+TOPS = {"add": "TAdd", "sub": "TSub", "mul": "TMul", "div": "TDiv", "adda": "TAdd", "suba": "TSub", "mula": "TMul",
+        "diva": "TDiv", "neg": "TNeg", "abs": "TAbs", "min": "TMin", "max": "TMax", "rnd": "TRnd"}
+ASSIGN_OF = {"add": "adda", "sub": "suba", "mul": "mula", "div": "diva"}
+UNARY = ("neg", "abs", "rnd")
+
+
+def trace_term(c, obs):
+    """`T raw(r0) raw(r1) (raw(result) bits(f64(result)) code)*`  ->  Corr.v's `Trace`"""
     a, b = int(c["a"], 16), int(c["b"], 16)
     t = obs.split()
-    if obs == "P" or len(t) != N_TOK:
-        # no operation of the crate panics; make the case fail both checks
+    st = c["steps"]
+    if not t or t[0] != "T" or len(t) != 5 + 4 * len(st):
+        # a panic, a failed internal consistency check (`X ...`) or a malformed line: fails both checks
+        # (one constant term: thousands of failing cases then cost one Coq evaluation; the replay names the case)
+        return "(Trace (W 0 0) (W 0 0) (RW 0 0 1) (RW 0 0 1) [TSI TAdd 9 9 (RW 0 0 1) 1 0])"
+    steps = []
+    for k, (o, i, j) in enumerate(st):
+        q = 5 + 4 * k
+        steps.append("TSI %s %d %d %s %s %s" % (TOPS[o], i, j, r(t[q], t[q + 1]), w(t[q + 2]), t[q + 3]))
+    return "(Trace %s %s %s %s [%s])" % (w(a), w(b), r(t[1], t[2]), r(t[3], t[4]), "; ".join(steps))
+
+
+def coq_term(c, obs, profile):
+    if c["op"] == "trace":
+        return trace_term(c, obs)
+    a, b = int(c["a"], 16), int(c["b"], 16)
+    t = obs.split()
+    if obs == "P" or len(t) != N_TOK or t[0] == "X":
+        # no operation of the crate panics, and `X <names>` reports a failed internal consistency check of the
+        # executor (assigning vs by-value operators, != vs ==, ...): make the case fail both checks
         bad = "(RW 0 0 1)"
-        return "(Case %s %s %s (OBS %s 1 1 1 1 1 1 true true true true true 9 %s 1 %s %s %s))" % (
-            OPS[c["op"]], w(a), w(b), " ".join([bad] * 9), " ".join([bad] * 3),
+        # (one constant term: thousands of failing cases then cost one Coq evaluation; the replay names the case)
+        return "(Case OAll (W 0 0) (W 0 0) (OBS %s 1 1 1 1 1 1 true true true true true 9 %s 1 %s %s %s))" % (
+            " ".join([bad] * 9), " ".join([bad] * 3),
             " ".join(["SU"] * 4), " ".join(["(RL 0 SU SU)"] * N_REL), " ".join(["SU"] * 4))
     raws = [r(t[2 * i], t[2 * i + 1]) for i in range(9)]
     f64s = [w(v) for v in t[18:24]]
@@ -235,6 +265,8 @@ def nontrivial(c, obs):
 
 
 def classify(c, obs):
+    if c["op"] == "trace":
+        return "trace-%s/%s,%s" % (c.get("family", "replay"), fclass(c["a"]), fclass(c["b"]))
     return "%s/%s,%s" % (c["op"], fclass(c["a"]), fclass(c["b"]))
 
 
@@ -413,6 +445,129 @@ def random_pair(rng):
     return (a, sp) if rng.chance(1, 2) else (sp, a)
 
 
+ONE_BITS = 0x3FF0000000000000
+F64_MAX = 0x7FEFFFFFFFFFFFFF
+
+
+def targeted_pairs():
+    """format ends that the cross product of the quick boundary set does not contain: the binary64 overflow tie
+    f64::MAX + 2^970 (-> +inf), its two neighbours (stay MAX / go to inf), f64::MAX + 2^969, + 2^971, and products
+    of the smallest subnormal with values around 1/2 (the 2^-1075 tie of the narrowing)"""
+    out = []
+    for sa in (0, SIGN):
+        for m in (pow2(970), pow2(970) - 1, pow2(970) + 1, pow2(969), pow2(971)):
+            for sb in (0, SIGN):
+                out += [(F64_MAX | sa, m | sb), (m | sb, F64_MAX | sa)]
+    half = bits(0.5)
+    for m in (half, half + 1, half - 1, bits(0.75), bits(1.5), bits(0.25), bits(0.25) + 1):
+        for sub in (1, 3, 1 | SIGN):
+            out += [(sub, m), (m, sub)]
+    return out
+
+
+# ---------------------------------------------------------------------------- straight-line programs (Trace)
+# registers: 0 = x, 1 = y, k + 2 = result of step k
+FOLD = [("mul", 0, 1), ("div", 0, 1), ("add", 0, 1), ("add", 2, 0),      # 2 p   3 q   4 s   5 m = p + x
+        ("sub", 2, 3), ("mul", 4, 5), ("div", 0, 2), ("add", 1, 5),      # 6 p-q 7 s*m 8 x/p 9 y+m
+        ("neg", 5, 5), ("mul", 6, 7), ("sub", 11, 8), ("div", 12, 9),    # 10 -m 11 (p-q)(s m) 12 .. - x/p 13 ../(y+m)
+        ("abs", 10, 10), ("min", 6, 10), ("max", 13, 3), ("rnd", 13, 13),
+        ("sub", 1, 5), ("div", 3, 13), ("sub", 14, 5)]                   # img - ext, ext / ext, |-m| - m
+MMA = [("neg", 0, 0), ("abs", 2, 2), ("min", 0, 1), ("max", 2, 1),        # 2 -x  3 |-x|  4 min(x,y)  5 max(-x,y)
+       ("add", 2, 4), ("mul", 3, 5), ("sub", 4, 5), ("div", 6, 7),        # results of neg/abs/min/max as operands
+       ("abs", 8, 8), ("neg", 9, 9), ("min", 9, 10), ("max", 11, 10), ("rnd", 11, 11), ("neg", 14, 14),
+       ("min", 2, 2), ("max", 12, 12)]
+SQUARE = [("mul", 0, 0), ("mul", 2, 2), ("mul", 3, 3), ("mul", 4, 4), ("mul", 5, 5),   # x^2 x^4 x^8 x^16 x^32
+          ("mul", 5, 1), ("div", 5, 1), ("mul", 7, 1), ("mul", 6, 1), ("div", 4, 6),   # 7 x^16 y  8 x^16/y  9 x^16 y^2
+          ("add", 7, 5), ("sub", 7, 9), ("rnd", 5, 5), ("neg", 7, 7), ("div", 7, 4), ("mul", 7, 7),
+          ("add", 7, 9), ("rnd", 7, 7), ("abs", 15, 15), ("min", 7, 9), ("max", 6, 5)]
+
+
+def random_steps(rng):
+    ops = ["add", "sub", "mul", "div"] * 3 + ["neg", "abs", "min", "max", "rnd"]
+    st = []
+    for k in range(rng.range(5, 12)):
+        o = rng.choice(ops)
+        nreg = k + 2
+        i = nreg - 1 - rng.below(min(3, nreg)) if rng.chance(1, 2) else rng.below(nreg)
+        j = nreg - 1 - rng.below(min(3, nreg)) if rng.chance(1, 2) else rng.below(nreg)
+        st.append((o, i, i if o in UNARY else j))
+    return st
+
+
+def square_operands(rng):
+    """x at an end of the binary64 range (x^16 reaches the ends of the EXTENDED range: overflow beyond 2^16384,
+    denormals below 2^-16382, underflow to zero below 2^-16446), y a moderate power-of-two-ish scale"""
+    f = rng.choice([0, 0, 1, (1 << 52) - 1, rng.next(), rng.next(), sparse(rng)])
+    if rng.chance(1, 2):
+        a = mk(rng.choice([2046, 2046, 2045, 2040, 2030]), f, rng.below(2))
+        b = mk(1023 + rng.range(-20, 40), rng.choice([0, 0, rng.next()]), rng.below(2))
+    else:
+        a = rng.choice([mk(rng.choice([1, 1, 2, 3, 8]), f, rng.below(2)),
+                        (f & ((1 << 52) - 1)) | (1 << 51) | (rng.below(2) << 63)])      # subnormal near 2^-1023
+        b = mk(1023 - rng.range(0, 110), rng.choice([0, 0, 1, rng.next()]), rng.below(2))
+    return a, b
+
+
+def trace_case(a, b, steps, family):
+    return {"op": "trace", "a": hx(a), "b": hx(b), "steps": [list(t) for t in steps], "family": family}
+
+
+def assign_twin(c):
+    """the same program through the assigning operators (`t = u; t += v`): the same Coq term when healthy"""
+    return dict(c, steps=[[ASSIGN_OF.get(o, o), i, j] for (o, i, j) in c["steps"]], family=c["family"] + "-assign")
+
+
+def traces(rng, tier, B):
+    q = tier == "quick"
+    out = []
+
+    def operands():
+        if rng.chance(1, 5):
+            return rng.choice(B), rng.choice(B)
+        return random_pair(rng)
+
+    for fam, steps, n in (("fold", FOLD, 40 if q else 2500), ("minmaxabs", MMA, 30 if q else 1500)):
+        for _ in range(n):
+            a, b = operands()
+            out.append(trace_case(a, b, steps, fam))
+    for _ in range(40 if q else 2500):
+        a, b = square_operands(rng)
+        out.append(trace_case(a, b, SQUARE, "square"))
+    for _ in range(110 if q else 6000):
+        a, b = operands()
+        out.append(trace_case(a, b, random_steps(rng), "random"))
+    return out + [assign_twin(c) for c in out]
+
+
+def routed(rng, pairs, B, tier):
+    """other entry points of the crate that must print the very same observation line (see the executor's header);
+    the Coq term does not mention the route, so a healthy implementation costs no additional Coq work"""
+    import _driver
+    q = tier == "quick"
+    out = []
+
+    def some(n, route):
+        for c in _driver.spread(pairs, n):
+            out.append(dict(c, route=route))
+
+    some(600 if q else 6000, "a")
+    some(600 if q else 6000, "l")
+    some(200 if q else 2000, "t")
+    some(100 if q else 1000, "ti")
+    some(200 if q else 2000, "i")
+    some(200 if q else 2000, "aclsti")
+    for a in B:                                          # the constants as operands
+        for k in (0, ONE_BITS):
+            out.append({"op": "all", "a": hx(a), "b": hx(k), "route": "c"})
+            out.append({"op": "all", "a": hx(k), "b": hx(a), "route": "c"})
+    for a in B:                                          # the same object on both sides of every relation
+        out.append({"op": "all", "a": hx(a), "b": hx(a), "route": "s"})
+    for _ in range(60 if q else 3000):
+        a = random_pair(rng)[0]
+        out.append({"op": "all", "a": hx(a), "b": hx(a), "route": rng.choice(["s", "s", "sl", "st"])})
+    return out
+
+
 def generate(rng, tier):
     cases = []
     B = boundary(tier)
@@ -423,16 +578,15 @@ def generate(rng, tier):
     for _ in range(n):
         a, b = random_pair(rng)
         cases.append({"op": "all", "a": hx(a), "b": hx(b)})
+    for (a, b) in targeted_pairs():
+        cases.append({"op": "all", "a": hx(a), "b": hx(b)})
+    cases += routed(rng, list(cases), B, tier)
+    cases += traces(rng, tier, B)
     return cases
 
 
-def shrink(c):
+def shrink_operands(c):
     out = []
-    if c["op"] == "all":
-        for op in OPS:
-            if op != "all":
-                out.append(dict(c, op=op))
-        return out
     for key in ("a", "b"):
         v = int(c[key], 16)
         cands = [0x3FF0000000000000, 0, v & ~SIGN]
@@ -448,13 +602,66 @@ def shrink(c):
     return out
 
 
+def shrink(c):
+    out = []
+    if c["op"] == "trace":
+        st = [tuple(t) for t in c["steps"]]
+        for k in reversed(range(len(st))):                    # drop a step nobody uses
+            reg = k + 2
+            if any(i == reg or j == reg for (_, i, j) in st[k + 1:]):
+                continue
+            new = [[o, i - (i > reg), j - (j > reg)] for (o, i, j) in st[:k] + st[k + 1:]]
+            out.append(dict(c, steps=new))
+        if any(o in ASSIGN_OF.values() for (o, _, _) in st):
+            back = {v: k for k, v in ASSIGN_OF.items()}
+            out.append(dict(c, steps=[[back.get(o, o), i, j] for (o, i, j) in st]))
+        return out[:20] + shrink_operands(c)
+    if c.get("route"):
+        out.append(dict(c, route=""))                         # the plain script first
+        for ch in c["route"]:
+            if len(c["route"]) > 1:
+                out.append(dict(c, route=c["route"].replace(ch, "")))
+    if c["op"] == "all":
+        for op in OPS:
+            if op != "all":
+                out.append(dict(c, op=op))
+        return out
+    return out + shrink_operands(c)
+
+
 def known_finding(case, obs, profile):
     return None
 
 
+def build_lto(ctx):
+    """third build of the executor: profile `lto` of harness/crates/c18/Cargo.toml (release + fat LTO, one codegen
+    unit): rlib_f80 is inlined into its callers.  Same directories as checks/_driver.build_harness."""
+    import os
+    import _driver
+    hdir = _driver.HARNESS if ctx.repo == "/repo" else os.path.join(ctx.work, "harness")
+    env = dict(os.environ, CARGO_NET_OFFLINE="true")
+    if ctx.repo != "/repo":
+        env["CARGO_TARGET_DIR"] = os.path.join(ctx.repo, "target", "verif-harness")
+    env.setdefault("CARGO_TARGET_DIR", os.path.join(_driver.HARNESS, "target"))
+    cmd = ["cargo", "build", "--offline", "-q", "--profile", "lto", "--manifest-path",
+           os.path.join(hdir, "crates", CRATE, "Cargo.toml")]
+    rc, out = _driver.run(cmd, cwd=hdir, timeout=3600, env=env)
+    binp = os.path.join(env["CARGO_TARGET_DIR"], "lto", CRATE)
+    return rc == 0 and os.path.exists(binp), out, binp
+
+
+BULK_ROUTES = ["", "a", "l", "c", "t", "i", "al", "aclsti"]
+
+
 def extra(ctx, known):
-    """Implementation-level: the optimised build must return exactly what the debug build returned (whose results
-    are the ones Coq compared with the model): inline asm without declared x87 clobbers meets the optimiser here."""
+    """Implementation-level: every other build / history of the executor must return exactly what the debug build
+    returned (whose results are the ones Coq compared with the model): inline asm without declared x87 clobbers (or
+    with wrong `options`) meets the optimiser here.  Compared with the debug observations:
+      release            the optimised build
+      lto                release + fat LTO + one codegen unit (rlib_f80 inlined into the callers)
+      release-no-init    a process that never calls f80_init (C18_NO_INIT=1)
+    and, in the bulk of the thorough tier, the release / lto runs take the routes of BULK_ROUTES in turn while the
+    debug run takes the plain script."""
     import _driver
     cov, viol = {}, []
     ok, out, binp = _driver.build_harness(ctx, type("P", (), {"CRATE": CRATE}), "release")
@@ -462,27 +669,86 @@ def extra(ctx, known):
         return {"coverage": {"release_build": "failed"},
                 "violations": [{"name": "release-build", "nofail": True, "kind": "broken-correspondence",
                                 "payload": {"what": "the executor does not build in release profile", "log": out[-3000:]}}]}
+    lok, lout, lbin = build_lto(ctx)
+    if not lok:
+        return {"coverage": {"lto_build": "failed"},
+                "violations": [{"name": "lto-build", "nofail": True, "kind": "broken-correspondence",
+                                "payload": {"what": "the executor does not build in the lto profile", "log": lout[-3000:]}}]}
     cases = generate(_driver.Rng(ctx.seed).fork(ID), ctx.tier)
+    routes = {}
+    for c in cases:
+        k = "trace-" + c.get("family", "") if c["op"] == "trace" else "route-" + (c.get("route") or "plain")
+        routes[k] = routes.get(k, 0) + 1
+    cov["generated_cases_by_entry_point"] = routes
+    lines = [harness_line(c) for c in cases]
+    alt1, alt2 = list(lines), list(lines)
     if ctx.tier != "quick":
         rng = _driver.Rng(ctx.seed + 104729).fork(ID)
-        for _ in range(400000):
+        for k in range(400000):
             a, b = random_pair(rng)
-            cases.append({"op": "all", "a": hx(a), "b": hx(b)})
-    lines = [harness_line(c) for c in cases]
+            if k % 16 == 15:
+                b = a
+            c = {"op": "all", "a": hx(a), "b": hx(b)}
+            cases.append(c)
+            lines.append(harness_line(c))
+            alt1.append(harness_line(dict(c, route=BULK_ROUTES[k % len(BULK_ROUTES)])))
+            alt2.append(harness_line(dict(c, route=BULK_ROUTES[(k + 3) % len(BULK_ROUTES)])))
     dbg = _driver.run_impl(ctx.bins["debug"], lines)
-    rel = _driver.run_impl(binp, lines)
-    diff = [i for i in range(len(lines)) if not same_obs(dbg[i], rel[i])]
     cov["release_vs_debug_cases"] = len(lines)
     # how meaningful the relations on extended-format operands were on this run (debug observations)
     cov.update(ext_coverage(dbg))
-    cov["release_vs_debug_differences"] = len(diff)
-    if diff:
-        i = diff[0]
-        viol.append({"name": "release-%s-%s" % (cases[i]["a"], cases[i]["b"]), "nofail": True,
-                     "kind": "broken-correspondence",
-                     "payload": {"case": cases[i], "what": "release and debug builds of rlib_f80 return different results",
-                                 "debug": dbg[i], "release": rel[i], "other_differing_cases": len(diff) - 1}})
+    cov.update(trace_coverage(cases, dbg))
+    runs = [("release", binp, alt1, None), ("lto", lbin, alt2, None),
+            ("release-no-init", binp, lines, {"C18_NO_INIT": "1"})]
+    for (name, b, ls, env) in runs:
+        got = _driver.run_impl(b, ls, extra_env=env)
+        diff = [i for i in range(len(ls)) if not same_obs(dbg[i], got[i])]
+        cov[name.replace("-", "_") + "_vs_debug_differences"] = len(diff)
+        if diff:
+            i = diff[0]
+            viol.append({"name": "%s-%s-%s" % (name, cases[i]["a"], cases[i]["b"]), "nofail": True,
+                         "kind": "broken-correspondence",
+                         "payload": {"case": cases[i], "executor_line": ls[i],
+                                     "what": "the %s run of the executor and the debug build of rlib_f80 return "
+                                             "different results" % name,
+                                     "debug": dbg[i], name: got[i], "other_differing_cases": len(diff) - 1}})
     return {"coverage": cov, "violations": viol, "known": []}
+
+
+def trace_coverage(cases, obs_lines):
+    """what the straight-line programs reached (debug observations): results per class, f80 denormals, operands of
+    the arithmetic that are not images of binary64 values"""
+    cov = {"trace_steps": 0, "trace_results_inf": 0, "trace_results_nan": 0, "trace_results_zero": 0,
+           "trace_results_f80_denormal": 0, "trace_results_beyond_f64_range": 0,
+           "trace_arith_steps_with_an_extended_operand": 0, "trace_same_register_relations": 0}
+    for c, line in zip(cases, obs_lines):
+        if c["op"] != "trace":
+            continue
+        t = line.split()
+        st = c["steps"]
+        if not t or t[0] != "T" or len(t) != 5 + 4 * len(st):
+            continue
+        regs = [(int(t[1]), int(t[2])), (int(t[3]), int(t[4]))]
+        for k, (o, i, j) in enumerate(st):
+            q = 5 + 4 * k
+            se, m = int(t[q]), int(t[q + 1])
+            cov["trace_steps"] += 1
+            cl = raw_class(se, m)
+            if cl != "fin":
+                cov["trace_results_" + cl] += 1
+            if cl == "fin":
+                e = se & 0x7FFF
+                if e == 0:
+                    cov["trace_results_f80_denormal"] += 1
+                if e > 16383 + 1023 or e < 16383 - 1074:
+                    cov["trace_results_beyond_f64_range"] += 1
+            if i == j:
+                cov["trace_same_register_relations"] += 1
+            if o not in UNARY and o not in ("min", "max"):
+                if any(raw_class(*regs[z]) == "fin" and (regs[z][1] & 0x7FF) != 0 for z in (i, j)):
+                    cov["trace_arith_steps_with_an_extended_operand"] += 1
+            regs.append((se, m))
+    return cov
 
 
 RAW_AT = set(list(range(0, 18, 2)) + [30, 32, 34] + list(range(EXT0 + 1, EXT0 + 9, 2))
@@ -505,7 +771,23 @@ def same_obs(x, y):
     if x == y:
         return True
     tx, ty = x.split(), y.split()
-    if len(tx) != len(ty) or len(tx) != N_TOK:
+    if len(tx) != len(ty) or not tx:
+        return False
+    if tx[0] == "T" and ty[0] == "T" and len(tx) >= 5 and (len(tx) - 5) % 4 == 0:
+        # T raw raw (raw f64 code)*
+        def raw_ok(k):
+            return (raw_is_nan(tx[k], tx[k + 1]) and raw_is_nan(ty[k], ty[k + 1])) or tx[k:k + 2] == ty[k:k + 2]
+        if not (raw_ok(1) and raw_ok(3)):
+            return False
+        for k in range(5, len(tx), 4):
+            if not raw_ok(k):
+                return False
+            if not ((bits_is_nan(tx[k + 2]) and bits_is_nan(ty[k + 2])) or tx[k + 2] == ty[k + 2]):
+                return False
+            if tx[k + 3] != ty[k + 3]:
+                return False
+        return True
+    if len(tx) != N_TOK or tx[0] == "X" or ty[0] == "X":
         return False
     i = 0
     while i < N_TOK:
